@@ -66,6 +66,15 @@ ASSUMPTIONS = [
     "time_exit from the closing trade); all fills of a closed position carry the exit time the behaviour names",
     "the tear-sheet generators are serialisable: a serde_json store/restore of every running generator between two events "
     "(spec action Persist, a stutter) must leave the generated summary, now and later, unchanged",
+    "the tear sheet is a function of the CLOSED positions only: an open position - just opened, increased, or partly reduced with PnL "
+    "already realised - contributes nothing until it is closed. Engine mode generates summaries while such positions are open: the "
+    "opening fill (and the reducing fill of a partial close) of an instrument's next closed position is executed up to several events "
+    "early, and an instrument that closes nothing any more may carry a position that is opened, increased, partly reduced at another "
+    "price and never closed",
+    "summary / engine modes: the first balance snapshot of about half of the assets is delivered by the builder of the engine state "
+    "(EngineState::builder(..).balances(..), as SystemBuilder::balances does) at the start of the session instead of an account event: "
+    "it is the first accepted snapshot of that asset and the first point of its equity curve; the behaviour's event places it in the "
+    "history (events of different keys commute), the asset is compared from that event on",
     "engine mode: producing the closed position from fills is C02's subject - a deviation there is a tool error, not a C16 verdict",
 ]
 MODES = ("direct", "summary", "engine")
@@ -335,7 +344,10 @@ def replays(ctx):
                                                             "late_exit_behind_a_later_exit_of_the_same_instrument", "exit_before_session_start",
                                                             "balance_only_free_moved", "balance_only_total_moved", "balance_both_moved",
                                                             "balance_repeated_unchanged", "balance_inside_full_account_snapshot",
-                                                            "sheets_with_more_than_one_reading")):
+                                                            "sheets_with_more_than_one_reading",
+                                                            "balance_seeded_by_the_state_builder", "balance_below_the_seeded_one_before_any_above",
+                                                            "generated_with_an_opened_position", "generated_with_a_partly_reduced_open_position",
+                                                            "positions_opened_early", "positions_never_closed")):
         raise vlib.ToolError("vacuous run: a kind of event was never replayed: %s" % arms)
     if not all(ratio.get(k) for k in ("compared", "left_open_by_the_spec", "sentinel_scaled_down", "rescaled_with_scale()")):
         raise vlib.ToolError("vacuous run: the ratio figures were not all exercised: %s" % ratio)
